@@ -158,6 +158,10 @@ func (unpacker *RtpUnpackerAac) TryUnpackOne(list *RtpPacketList) (unpackedFlag 
 		outPkt.PayloadType = unpacker.payloadType
 		// 一个rtp包中的多个AU，每个AU间隔1024个采样点。注意，先在rtp时间戳上累加再转换成毫秒，避免每个AU都引入取整误差
 		outPkt.Timestamp = rtpTimestamp2Ms(p.Packet.Header.Timestamp+uint32(i*1024), unpacker.clockRate)
+		if aus[i].pos+aus[i].size > uint32(len(b)) {
+			Log.Warnf("au size bigger than rtp packet. pos=%d, size=%d, len(b)=%d", aus[i].pos, aus[i].size, len(b))
+			break
+		}
 		outPkt.Payload = b[aus[i].pos : aus[i].pos+aus[i].size]
 		unpacker.onAvPacket(outPkt)
 	}
@@ -175,10 +179,18 @@ type au struct {
 func parseAu(b []byte) (ret []au) {
 	// TODO(chef): [fix] 解析b时，没有判断长度有效性 202207
 
+	// 注意，数据来自对端，需要检查长度有效性
+	if len(b) < 2 {
+		return nil
+	}
+
 	// AU Header Section
 	var auHeadersLength uint32
 	auHeadersLength = uint32(b[0])<<8 + uint32(b[1])
 	auHeadersLength = (auHeadersLength + 7) / 8
+	if uint32(len(b)) < 2+auHeadersLength {
+		return nil
+	}
 
 	// TODO chef: 这里的2是写死的，正常是外部传入auSize和auIndex所占位数的和
 	const auHeaderSize = 2
